@@ -16,7 +16,8 @@ EXPLANATION = ("D1 BdlBlockType::from_str maps one keyword to each of the varian
                "floor, the five wall kinds hang from the space, CONSTRUCTION/WINDOW/DOOR hang from the wall, everything else has no parent; D3 the block types routed into "
                "each bucket are exactly the types its match handles; D4 every recorded attribute row is still read with the same key, type and default (one-directional); "
                "D5 KyG numeric columns go through the decimal-comma replacement and ElemType's code table is complete")
-DECIDED = ["D1 keyword table", "D2 parent table", "D3 routing = handling", "D4 attribute rows (one-directional)", "D5 KyG/tbl column handling"]
+DECIDED = ["D1 keyword table", "D2 parent table", "D3 routing = handling", "D4 attribute rows (one-directional)", "D5 KyG/tbl column handling",
+           "D6 tbl record fields are read from the column of their declaration position; the KyG obstruction factor is column 6 / column 3"]
 UNDECIDED = ["everything lexical: comments, blank lines, CRLF, quoting, multi-line lists, number formats, names that look like numbers"]
 ASSUMPTIONS = ["the attribute rows in ctecheck/spec/bdl_schema.py were transcribed from the doc-comment examples and the code of the pinned commit and reviewed"]
 LEVEL_TEXT = ("Partial (tables only): the keyword, parent, routing and attribute tables through which 'every value written in the file is recovered' are read from MIR and "
